@@ -114,6 +114,7 @@ package atree
 //@ func (a *ArrayDataSlab) PopIterate(storage, fn) (err)  serves C01 C06 C13
 //@   requires wfADS(a) && fn != nil
 //@   ensures err == nil && len(a.elements) == 0 && a.header.count == 0 && wfADS(a)
+//@   ensures a.header.slabID == old(a.header.slabID)
 //@   modifies a.elements, a.header, ghost.touched
 //@   loop 1: invariant -1 <= i && i < len(a.elements)
 
